@@ -69,6 +69,10 @@ CHECKS["C02"] = dict(level="exploration",
    text="Schedule search with the deterministic scheduler: exhaustive single-preemption enumeration for fixed reader x writer scenarios (incl. the empty table, multi-append transactions, deletes, a rolled-back transaction and a commit failing at the pointer write; local and conditional-write S3; shared and separate handles) plus Hypothesis PCT schedules over generated scenarios with 1-2 readers (1-2 successive reads each, every read API with filter / projection / verification options) and 1-3 writers. From the pointer-flip log the committed current snapshots and the step interval of each are reconstructed by the independent reader; every read must RETURN exactly the (filtered, projected) rows of one snapshot that was current at some instant of the read, and successive reads on one handle must not go backwards.",
    note="Bounded schedule search (depth 1 exhaustive on fixed scenarios, depth <=3 sampled). Thread-pool workers of a parallel scan are not scheduled individually. GC and expiry are not among the writers here.",
    technique="deterministic-scheduler schedule enumeration + Hypothesis PCT schedules, linearizability-style oracle over the pointer-flip history", design="3/C02")
+CHECKS["C06"] = dict(level="exploration",
+   text="Schedule search with the deterministic scheduler: one collector and 1-2 transactions (append, multi-append, delete_files; committing, retrying, rolling back; optionally with data files written before the run and aged past the grace period = long-running load) on local and conditional-write S3; exhaustive single-preemption enumeration for 5 fixed scenarios plus Hypothesis PCT schedules over generated scenarios. When every actor has finished, every file of every snapshot of the final metadata must exist and verify (independent reader) and the rows of acknowledged transactions must be readable.",
+   note="Grace is never 0 and nothing is aged during a run, so 'grace exceeds the duration of the run' holds by construction. Bounded schedule depth (1 exhaustive, <=3 sampled).",
+   technique="deterministic-scheduler schedule enumeration + Hypothesis PCT schedules, end-state oracle by independent reader", design="3/C06")
 NOT_YET = {}
 
 def main():
